@@ -85,7 +85,19 @@ def flip_roots(rng, x, p):
     return x
 
 
+# regex literals: every flag combination next to inline flags, scoped flag groups and flag-looking text in the pattern
+RE_PATS = ["x", "(?i)x", "(?i:x)y", "x(?s:.)?y", "(?m:^a)$", "a(?-i:b)c", "(?i)a(?-i:b)", "\\(?i\\)x", "[(?i)]x", "(?:x)y", "(?is)x.y", "(?s-i:x.)y",
+           "(?P<n>x)(?P=n)", "(?#i)x", "x(?=y)", "(?a:\\w)", "x|(?i:y)"]
+RE_FLAGS = ["", "i", "s", "m", "a", "is", "im", "ms", "ims", "ai"]
+RE_DOCS = [[{"a": v} for v in ("x", "X", "xy", "xY", "Xy", "XY", "x\ny", "X\nY", "a", "A", "abc", "aBc", "ABC", "aB", "AB", "ab", "\nA", "xx", "XX", "(?i)x", "ix", "y", "Y",
+                                  "é", "É", "x y", "xay", "XAY")]]
+RAW_RE = ["$[?@.a =~ /%s/%s]" % (p_, f_) for p_ in RE_PATS for f_ in RE_FLAGS] + \
+         ["$[?!(@.a =~ /%s/%s) && @.a =~ /%s/]" % (p_, f_, p_) for p_ in RE_PATS[:8] for f_ in ("i", "s")]
+
+
 def gen(rng, tier):
+    for text in RAW_RE:
+        yield {"text": text, "docs": RE_DOCS, "ctx": Q.CTX, "env": None}
     for text in RAW + RAW_FLOATS:
         yield {"text": text, "docs": [[0, 1, 2, 3, 4, 5, 6, [7, 8, 9]], {"a": [[1, 2, 3], [4, 5]]}, [[0, 1, 2], [3, 4, 5]]], "ctx": Q.CTX, "env": None}
     n = 8000 if tier == "thorough" else 900
@@ -171,17 +183,23 @@ def impl(case):
 
 def decode(sx, case):
     tag = sx[0]
+    # a query outside the MODEL (a regex construct rt/Regex.v does not execute, ...) is still inside the property whenever the
+    # implementation accepts it: the recompile / fixed point / same results / same regex literals oracle needs no model
+    impl_only = {"model": {}, "spec": {"recompiles": True, "fixed_point": True, "same_results": True, "same_regexes": True},
+                 "in_domain": True, "model_unsupported": True, "spec_if_accepted": True}
     if tag == "unsupported":
-        return {"model": {}, "spec": {}, "in_domain": False, "skip": True}
+        return impl_only
     if tag == "compile-err":
         unsupported = sx[1] in ("unsupported", "fuel")
+        if unsupported:
+            return impl_only
         return {"model": {"compile": ["err", sx[1]]}, "spec": {}, "in_domain": False, "skip": unsupported}
     if tag == "text-err":
-        return {"model": {}, "spec": {"recompiles": True, "fixed_point": True, "same_results": True}, "in_domain": True,
+        return {"model": {}, "spec": {"recompiles": True, "fixed_point": True, "same_results": True, "same_regexes": True}, "in_domain": True,
                 "model_unsupported": True}
     if tag == "recompile-err":
         model = {"compile": ["ok", Q.canon_ast(FUZZ.sx_query_to_ast(sx[3]))], "str": SX.sx2s(sx[2]), "recompile": ["err", sx[1]]}
-        return {"model": model, "spec": {"recompiles": True, "fixed_point": True, "same_results": True}, "in_domain": True,
+        return {"model": model, "spec": {"recompiles": True, "fixed_point": True, "same_results": True, "same_regexes": True}, "in_domain": True,
                 "model_unsupported": sx[1] in ("unsupported", "fuel")}
     _, q, t1, q2, t2, ev1, ev2, gate, ext = sx[:9]
     bridges = {b[0]: b[1] for b in sx[9:]}
@@ -201,7 +219,7 @@ def decode(sx, case):
     bridges["domain-if-floats"] = dom if floats else "true"
     model["bridges"] = bridges
     model["float_domain"] = floats
-    return {"model": model, "spec": {"recompiles": True, "fixed_point": True, "same_results": True}, "in_domain": True,
+    return {"model": model, "spec": {"recompiles": True, "fixed_point": True, "same_results": True, "same_regexes": True}, "in_domain": True,
             "model_unsupported": unsupported}
 
 
@@ -213,14 +231,29 @@ def for_model(case, res):
     return out
 
 
+def _regexes(x, acc):
+    if isinstance(x, list):
+        if len(x) >= 2 and x[0] == "re":
+            acc.append([x[1], "".join(sorted(x[2])) if len(x) > 2 and isinstance(x[2], str) else x[2:]])
+        for y in x:
+            _regexes(y, acc)
+    elif isinstance(x, dict):
+        for y in x.values():
+            _regexes(y, acc)
+    return acc
+
+
 def project(case, res, dec=None):
     if res["compile"][0] != "ok":
+        if dec and dec.get("spec_if_accepted"):
+            return dict(dec["spec"])          # not accepted: nothing is claimed (the model cannot say whether it should be)
         return {"not-accepted": True}
     if "str" not in res or isinstance(res["str"], list):
         return {"str-failed": res.get("str")}
     if res.get("recompile", ["err"])[0] != "ok":
         return {"recompiles": False, "str": res["str"], "error": res.get("recompile")}
-    return {"recompiles": True, "fixed_point": res["str2"] == res["str"], "same_results": res["eval1"] == res["eval2"]}
+    return {"recompiles": True, "fixed_point": res["str2"] == res["str"], "same_results": res["eval1"] == res["eval2"],
+            "same_regexes": _regexes(res["compile"][1], []) == _regexes(res["recompile"][1], [])}
 
 
 def nontrivial(case, res):
